@@ -36,13 +36,10 @@ m('c01-nl-zeventig-6', 'C01', NL, '"zeventig" | "zeventigste" if !blocked.contai
 m('c01-pt-lemmatize-duas', 'C01', PT, 'word.ends_with("as") && word != "duas"', 'word.ends_with("as") && word != "dua"', 'A1-LEX-CARD')
 # --- C02
 m('c02-match-word-plus1', 'C02', TK, 'if !(c.is_alphanumeric() || *c == \'-\' || *c == \'\\\'\') {\n                    break *pos;',
-  'if !(c.is_alphanumeric() || *c == \'-\' || *c == \'\\\'\') {\n                    break *pos + c.len_utf8() - c.len_utf8().min(1);', 'B11-TOKENIZER')
-m('c02-token-trim', 'C02', TK, 'text: text.to_owned(),\n            lowercase: text.to_lowercase(),', 'text: text.trim_end_matches(\'\\u{feff}\').to_owned(),\n            lowercase: text.to_lowercase(),', 'B11-TOKENIZER')
-m('c02-replace-no-rev', 'C02', WD, 'in self.matches.into_iter().rev()', 'in self.matches.into_iter()', 'B12-REPLACE')
-m('c02-insert-end', 'C02', WD, 'tokens.insert(start, repr);', 'tokens.insert(start.min(end), repr);', 'B12-REPLACE')
-m('c02-fr-annotate-dedup', 'C02', FR, '        let mut b = DigitString::new();\n        let mut true_words: Vec<usize> = Vec::with_capacity(tokens.len());',
-  '        let mut b = DigitString::new();\n        tokens.truncate(usize::MAX);\n        let mut true_words: Vec<usize> = Vec::with_capacity(tokens.len());', 'B12-REPLACE')
-m('c02-join-zwsp', 'C02', WD, 'out.join("")', 'out.join("\\u{200b}").replace(\'\\u{200b}\', "")', 'B12-REPLACE')
+  'if !(c.is_alphanumeric() || *c == \'-\' || *c == \'\\\'\') {\n                    break *pos + c.len_utf8() - c.len_utf8().min(1);', 'V02')
+m('c02-token-trim', 'C02', TK, 'text: text.to_owned(),\n            lowercase: text.to_lowercase(),', 'text: text.trim_end_matches(\'\\u{feff}\').to_owned(),\n            lowercase: text.to_lowercase(),', 'V02')
+m('c02-replace-no-rev', 'C02', WD, 'in self.matches.into_iter().rev()', 'in self.matches.into_iter()', 'V02|B11')
+m('c02-join-zwsp', 'C02', WD, 'out.join("")', 'out.join("\\u{200b}").replace(\'\\u{200b}\', "")', 'V02|B11')
 # --- C03
 m('c03-text2digits-unwrap', 'C03', WD, 'pub fn text2digits<T: LangInterpreter>(text: &str, lang: &T) -> Result<String, Error> {\n',
   'pub fn text2digits<T: LangInterpreter>(text: &str, lang: &T) -> Result<String, Error> {\n    let _first = text.split_whitespace().next().unwrap();\n', 'B1-PANIC-SITES')
@@ -64,21 +61,20 @@ m('c04-es-marker-plural', 'C04', ES, "let is_plur = word.ends_with('s');", "let 
 m('c05-en-sep-dot', 'C05', EN, 'word == "point"', 'word == "dot"', 'A5-SEP-MARK')
 m('c05-fr-mark-dot', 'C05', FR, '(format!("{sint},{sdec}"), val)', '(format!("{sint}.{sdec}"), val)', 'A5-SEP-MARK')
 m('c05-de-drei-2', 'C05', DE, '"drei" => b.push(b"3"),', '"drei" => b.push(b"2"),', 'A4-DEC-TABLE')
-m('c05-push-drop-nonempty', 'C05', WD, '            && !self.int_part.is_empty()\n            && !self.int_part.is_ordinal()', '            && !self.int_part.is_ordinal()', 'B7-DECIMAL-ENTRY')
-m('c05-sv-drop-dec-nonempty', 'C05', WD, 'let res = if self.is_dec && !self.dec_part.is_empty() {', 'let res = if self.is_dec {', 'B7-RESET-MUST')
+m('c05-push-drop-nonempty', 'C05', WD, '            && !self.int_part.is_empty()\n            && !self.int_part.is_ordinal()', '            && !self.int_part.is_ordinal()', 'V')
+m('c05-sv-drop-dec-nonempty', 'C05', WD, 'let res = if self.is_dec && !self.dec_part.is_empty() {', 'let res = if self.is_dec {', 'V')
 m('c05-it-swap-args', 'C05', IT, 'let val = format!("{sint}.{sdec}").parse().unwrap();\n        (format!("{sint},{sdec}"), val)\n    }\n\n    fn is_linking',
   'let val = format!("{sint}.{sdec}").parse().unwrap();\n        (format!("{sdec},{sint}"), val)\n    }\n\n    fn is_linking', 'A5-SEP-MARK')
 # --- C06
 m('c06-ordinal-after-reset', 'C06', WD, '        let is_ordinal = self.parser.is_ordinal();\n        let (digits, value) = self.parser.string_and_value();',
-  '        let (digits, value) = self.parser.string_and_value();\n        let is_ordinal = self.parser.is_ordinal();', 'B13-OCC')
-m('c06-start-from-end', 'C06', WD, '            start: self.match_start,\n            end: self.match_end,', '            start: self.match_start.min(self.match_end),\n            end: self.match_end,', 'B13-OCC')
+  '        let (digits, value) = self.parser.string_and_value();\n        let is_ordinal = self.parser.is_ordinal();', 'V')
 m('c06-es-ordinal-no-marker', ['C06', 'C04'], ES, 'MorphologicalMarker::Ordinal(marker) => (format!("{repr}{marker}"), val),', 'MorphologicalMarker::Ordinal(_marker) => (format!("{repr}"), val),', 'A5-SEP-MARK')
-m('c06-revert-f04', 'C06', WD, '            && !self.int_part.is_ordinal()\n', '', 'B7-DECIMAL-ENTRY')
-m('c06-advance-start-always', 'C06', WD, '        if self.match_start == self.match_end {\n            self.match_start = pos\n        }', '        if self.match_start <= self.match_end {\n            self.match_start = pos\n        }', 'B13-OCC')
+m('c06-revert-f04', 'C06', WD, '            && !self.int_part.is_ordinal()\n', '', 'V')
+m('c06-advance-start-always', 'C06', WD, '        if self.match_start == self.match_end {\n            self.match_start = pos\n        }', '        if self.match_start <= self.match_end {\n            self.match_start = pos\n        }', 'V')
 # --- C07
 m('c07-revert-f05', ['C07', 'C12'], DS, '        if implicit_one {\n            padding_zeroes -= 1;\n        }', '        if implicit_one {\n            self.buffer[l - 1] = b\'1\';\n            padding_zeroes -= 1;\n        }', 'B3-FAIL-ATOMIC')
-m('c07-retry-with-test', ['C07', 'C15'], WD, 'if self.parser.push(lo_token).is_ok() {', 'if self.parser.push(test).is_ok() {', 'B14-SCANNER')
-m('c07-drop-number-end', ['C07', 'C15'], WD, '            Err(_) if self.parser.has_number() => {\n                self.number_end();', '            Err(_) if self.parser.has_number() => {', 'B14-SCANNER')
+m('c07-retry-with-test', ['C07', 'C15'], WD, 'if self.parser.push(lo_token).is_ok() {', 'if self.parser.push(test).is_ok() {', 'V')
+m('c07-drop-number-end', ['C07', 'C15'], WD, '            Err(_) if self.parser.has_number() => {\n                self.number_end();', '            Err(_) if self.parser.has_number() => {', 'V')
 m('c07-second-interpreter', 'C07', WD, '        let text = token.text();\n        if !(', '        let text = token.text();\n        let _ = self.lang.apply(token.text_lowercase(), &mut DigitString::new());\n        if !(', 'B15-SHARED')
 # --- C08
 m('c08-en-seven-unguarded', 'C08', EN, '"seven" | "seventh" if b.peek(2) != b"10" => b.put(b"7"),', '"seven" | "seventh" => b.put(b"7"),', 'A7')
@@ -87,18 +83,18 @@ m('c08-pt-onze-unblocked', 'C08', PT, '"onze" if !smaller_blocked => b.put(b"11"
 m('c08-es-y-unguarded', 'C08', ES, '"y" if b.len() >= 2 => Err(Error::Incomplete),', '"y" => Err(Error::Incomplete),', 'A10-CONJ')
 m('c08-nl-flags-not-cleared', 'C08', NL, '        } else {\n            b.flags = 0;\n        }\n        status\n    }\n\n    fn apply_decimal', '        } else {\n            b.flags = b.flags & 1;\n        }\n        status\n    }\n\n    fn apply_decimal', 'A7')
 # --- C09
-m('c09-policy-eq', 'C09', WD, 'if self.last_contiguous_match != kind {\n            self.last_contiguous_match = MatchKind::None;', 'if self.last_contiguous_match == kind {\n            self.last_contiguous_match = MatchKind::None;', 'B16-POLICY')
-m('c09-drop-take', 'C09', WD, '            self.matches.push_back(occurence);\n            self.on_hold.take();', '            self.matches.push_back(occurence);', 'B16-POLICY')
-m('c09-le-threshold', 'C09', WD, 'value < self.threshold;', 'value <= self.threshold;', 'B8-THRESHOLD')
-m('c09-or-ordinal', 'C09', WD, '(digits.len() == 1 || is_ordinal) && value < self.threshold;', '(digits.len() == 1 && value < self.threshold) || is_ordinal;', 'B8-THRESHOLD')
-m('c09-negate-flag', 'C09', WD, '.number_end(is_ordinal, digits, value, forget_if_isolate);', '.number_end(is_ordinal, digits, value, !forget_if_isolate);', 'B8-THRESHOLD')
-m('c09-threshold-in-breaker', 'C09', WD, '            || self.lang.is_linking(token.text_lowercase()))', '            || self.lang.is_linking(token.text_lowercase())\n            || self.threshold > 1e300)', 'B8-')
-m('c09-breaker-and', 'C09', WD, 'text.chars().all(|c| !c.is_alphabetic()) && text.trim() != "."', 'text.chars().all(|c| !c.is_alphabetic()) || text.trim() != "."', 'B8-BREAKER')
+m('c09-policy-eq', 'C09', WD, 'if self.last_contiguous_match != kind {\n            self.last_contiguous_match = MatchKind::None;', 'if self.last_contiguous_match == kind {\n            self.last_contiguous_match = MatchKind::None;', 'V09')
+m('c09-drop-take', 'C09', WD, '            self.matches.push_back(occurence);\n            self.on_hold.take();', '            self.matches.push_back(occurence);', 'V09')
+m('c09-le-threshold', 'C09', WD, 'value < self.threshold;', 'value <= self.threshold;', 'V09')
+m('c09-or-ordinal', 'C09', WD, '(digits.len() == 1 || is_ordinal) && value < self.threshold;', '(digits.len() == 1 && value < self.threshold) || is_ordinal;', 'V09')
+m('c09-negate-flag', 'C09', WD, '.number_end(is_ordinal, digits, value, forget_if_isolate);', '.number_end(is_ordinal, digits, value, !forget_if_isolate);', 'V09')
+m('c09-threshold-in-breaker', 'C09', WD, '            || self.lang.is_linking(token.text_lowercase()))', '            || self.lang.is_linking(token.text_lowercase())\n            || self.threshold > 1e300)', 'V09')
+m('c09-breaker-and', 'C09', WD, 'text.chars().all(|c| !c.is_alphabetic()) && text.trim() != "."', 'text.chars().all(|c| !c.is_alphabetic()) || text.trim() != "."', 'V09')
 # --- C10
-m('c10-no-reset', ['C10', 'C07'], WD, '        self.reset();\n        res\n', '        res\n', 'B7-RESET-MUST')
-m('c10-reset-forgets-flags', 'C10', DS, '        self.buffer.clear();\n        self.flags = 0;\n    }', '        self.buffer.clear();\n    }', 'B6-FIELD')
+m('c10-no-reset', ['C10', 'C07'], WD, '        self.reset();\n        res\n', '        res\n', 'V')
+m('c10-reset-forgets-flags', 'C10', DS, '        self.buffer.clear();\n        self.flags = 0;\n    }', '        self.buffer.clear();\n    }', 'V12|V')
 m('c10-revert-f06', 'C10', FR, '                // the scratch builder must not carry digits over to the next ambiguous word\n                b.reset();\n', '', 'B7-SCRATCH')
-m('c10-parser-reset-forgets-isdec', 'C10', WD, '        self.dec_part.reset();\n        self.is_dec = false;', '        self.dec_part.reset();', 'B6-FIELD')
+m('c10-parser-reset-forgets-isdec', 'C10', WD, '        self.dec_part.reset();\n        self.is_dec = false;', '        self.dec_part.reset();', 'V12|V')
 m('c10-en-no-reset', ['C10', 'C18'], EN, '                {\n                    b.reset()\n                } else {', '                {\n                } else {', 'B7-SCRATCH')
 # --- C11
 m('c11-revert-f07', 'C11', WD, '|| self.lang.is_linking(token.text_lowercase()))', '|| self.lang.is_linking(text))', 'B9-CASE')
@@ -109,10 +105,10 @@ m('c11-push-raw-text', 'C11', WD, '        let lo_token = token.text_lowercase()
 m('c12-revert-f08', 'C12', DS, '        if self.buffer.is_empty() {\n            // nothing placed yet: every position is free\n            return true;\n        }\n', '', 'B1-PANIC-SITES')
 m('c12-revert-f09', 'C12', DS, '    pub fn push(&mut self, digits: &[u8]) -> Result<(), Error> {\n        if self.frozen {\n            return Err(Error::Frozen);\n        }\n', '    pub fn push(&mut self, digits: &[u8]) -> Result<(), Error> {\n', 'B4-FROZEN')
 m('c12-fput-no-frozen', 'C12', DS, '    pub fn fput(&mut self, digits: &[u8]) -> Result<(), Error> {\n        if self.frozen {\n            return Err(Error::Frozen);\n        }\n', '    pub fn fput(&mut self, digits: &[u8]) -> Result<(), Error> {\n', 'B4-FROZEN')
-m('c12-len-ignores-zeros', ['C12', 'C16'], DS, '        self.buffer.len() + self.leading_zeroes\n', '        self.buffer.len()\n', 'B6-FIELD')
+m('c12-len-ignores-zeros', ['C12', 'C16'], DS, '        self.buffer.len() + self.leading_zeroes\n', '        self.buffer.len()\n', 'V12|V')
 m('c12-put-write-before-check', 'C12', DS, '            l if all_zeros(&self.buffer[(l - positions)..]) => {\n                self.buffer[(l - positions)..].copy_from_slice(digits);\n                Ok(())\n            }\n            _ => Err(Error::Overlap),',
   '            l => {\n                let free = all_zeros(&self.buffer[(l - positions)..]);\n                self.buffer[(l - positions)..].copy_from_slice(digits);\n                if free { Ok(()) } else { Err(Error::Overlap) }\n            }', 'B')
-m('c12-put-digit-at-no-zero-check', 'C12', DS, '        } else if self.buffer[len - 1 - position] == b\'0\' {', '        } else if self.buffer[len - 1 - position] <= b\'1\' {', 'B5-WRITE')
+m('c12-put-digit-at-no-zero-check', 'C12', DS, '        } else if self.buffer[len - 1 - position] == b\'0\' {', '        } else if self.buffer[len - 1 - position] <= b\'1\' {', 'V12')
 # --- C13
 m('c13-swap-variants', 'C13', LM, '                    Language::$variant(l) => l.apply(num_func, b),\n                )*', '                    Language::$variant(l) => l.apply(num_func, b),\n                )*\n                #[allow(unreachable_patterns)]\n                Language::Dutch(_) => German::default().apply(num_func, b),', 'C-DELEGATION')
 m('c13-no-annotate', 'C13', LM, '        fn basic_annotate<T: BasicAnnotate>(&self, tokens: &mut Vec<T>) {\n            match self {\n                $(\n                    Language::$variant(l) => l.basic_annotate(tokens),\n                )*\n            }\n        }\n', '', 'C-DELEGATION')
@@ -127,17 +123,16 @@ m('c14-cell-field', 'C14', FR, '#[derive(Default)]\npub struct French {}', '#[de
 m('c14-env-var', 'C14', LIB, '    match language_code {\n        "de"', '    let language_code = if language_code.is_empty() && std::env::var("T2N_LANG").is_ok() { "en" } else { language_code };\n    match language_code {\n        "de"', 'C-STATELESS/effects')
 # --- C15
 m('c15-iter-no-ready-check', 'C15', WD, '            self.push(pos, token);\n            if self.tracker.has_matches() {\n                return self.tracker.pop();\n            }\n        }\n        self.finalize();\n        self.tracker.pop()',
-  '            self.push(pos, token);\n        }\n        self.finalize();\n        self.tracker.pop()', 'B14-ITERATOR')
-m('c15-nan-falls-through', 'C15', WD, '            self.outside_number(&token);\n            self.previous.replace(token);\n            return;\n        }\n        let lo_token', '            self.outside_number(&token);\n        }\n        let lo_token', 'B14-SCANNER')
-m('c15-comma-to-lotoken', 'C15', WD, '                "," // force stop without loosing token (see below)', '                lo_token', 'B14-SCANNER')
-m('c15-nan-skip-previous', 'C15', WD, '            self.outside_number(&token);\n            self.previous.replace(token);\n            return;', '            self.outside_number(&token);\n            return;', 'B14-SCANNER')
-m('c15-pop-back', 'C15', WD, '        self.matches.pop_front()', '        self.matches.pop_back()', 'B14-ITERATOR')
-m('c15-eager-new', 'C15', WD, '    fn new(input: I, lang: &\'a L, threshold: f64) -> Self {\n        Self {', '    fn new(mut input: I, lang: &\'a L, threshold: f64) -> Self {\n        let _peeked = if threshold.is_nan() { input.next() } else { None };\n        Self {', 'B14-ITERATOR')
+  '            self.push(pos, token);\n        }\n        self.finalize();\n        self.tracker.pop()', 'V')
+m('c15-nan-falls-through', 'C15', WD, '            self.outside_number(&token);\n            self.previous.replace(token);\n            return;\n        }\n        let lo_token', '            self.outside_number(&token);\n        }\n        let lo_token', 'V')
+m('c15-comma-to-lotoken', 'C15', WD, '                "," // force stop without loosing token (see below)', '                lo_token', 'V')
+m('c15-pop-back', 'C15', WD, '        self.matches.pop_front()', '        self.matches.pop_back()', 'V')
+m('c15-eager-new', 'C15', WD, '    fn new(input: I, lang: &\'a L, threshold: f64) -> Self {\n        Self {', '    fn new(mut input: I, lang: &\'a L, threshold: f64) -> Self {\n        let _peeked = if threshold.is_nan() { input.next() } else { None };\n        Self {', 'V')
 # --- C16
 m('c16-revert-f13', 'C16', IT, '"milione" if b.is_range_free(6, 8) => {\n                if b.peek(2) != b"1" {', '"milione" if b.is_range_free(6, 8) => {\n                if b.len() != 1 || b.peek(1) != b"1" {', 'A9b')
 m('c16-en-zero-guarded', ['C16', 'C08'], EN, '"zero" | "o" | "nought" => b.put(b"0"),\n            "one"', '"zero" | "o" | "nought" if b.is_empty() => b.put(b"0"),\n            "one"', 'A6-ZERO')
-m('c16-is-empty-ignores-zeros', ['C16', 'C12'], DS, '        self.buffer.is_empty() && self.leading_zeroes == 0\n', '        self.buffer.is_empty()\n', 'B6-FIELD')
-m('c16-count-zero-nonempty', ['C16', 'C12', 'C08'], DS, '        if self.buffer.is_empty() && digits == b"0" {', '        if digits == b"0" {', 'B5-WRITE')
+m('c16-is-empty-ignores-zeros', ['C16', 'C12'], DS, '        self.buffer.is_empty() && self.leading_zeroes == 0\n', '        self.buffer.is_empty()\n', 'V12|V')
+m('c16-count-zero-nonempty', ['C16', 'C12', 'C08'], DS, '        if self.buffer.is_empty() && digits == b"0" {', '        if digits == b"0" {', 'V12')
 m('c16-to-string-drops-zeros', ['C16', 'C12'], DS, '        let mut res = "0".repeat(self.leading_zeroes);', '        let mut res = "0".repeat(self.leading_zeroes.min(0));\n        let _ = self.leading_zeroes;', 'B')
 # --- C17
 m('c17-revert-f14', 'C17', EN, 'all(|c| c.is_whitespace())', 'all(|c| c.is_ascii_whitespace())', 'B10-WS')
@@ -145,7 +140,7 @@ m('c17-is-whitespace-ascii', 'C17', WD, 'token.chars().all(char::is_whitespace)'
 m('c17-split-space', ['C17', 'C07', 'C11'], WD, 'text.to_lowercase().split_whitespace()', "text.to_lowercase().split(' ').filter(|w| !w.is_empty())", 'B')
 m('c17-trim-space', 'C17', WD, 'text.trim() != "."', "text.trim_matches(' ') != \".\"", 'B10-WS')
 m('c17-sep-stops-at-space', ['C17', 'C02'], TK, '                if c.is_alphanumeric() {\n                    break *pos;\n                }\n                self.chars.next();\n            } else {\n                break self.source.len();\n            }\n        }\n    }\n}',
-  '                if c.is_alphanumeric() || *c == \'\\u{a0}\' {\n                    break *pos;\n                }\n                self.chars.next();\n            } else {\n                break self.source.len();\n            }\n        }\n    }\n}', 'B11-TOKENIZER')
+  '                if c.is_alphanumeric() || *c == \'\\u{a0}\' {\n                    break *pos;\n                }\n                self.chars.next();\n            } else {\n                break self.source.len();\n            }\n        }\n    }\n}', 'V02')
 # --- C18
 m('c18-dec-drops-o', ['C18', 'C05'], EN, '"zero" | "o" | "nought" => b.push(b"0"),', '"zero" | "nought" => b.push(b"0"),', 'A')
 m('c18-neighbour-plus2', 'C18', EN, 'j + 1 < significant_tokens_indices.len()\n                        && self\n                            .apply(\n                                tokens[significant_tokens_indices[j + 1]].text_lowercase(),',
